@@ -37,6 +37,7 @@ def cases(draw, tier="quick"):
     P["get_after_closed"] = True
     P["hs_slow"] = draw(st.sampled_from([[False, False], [False, False], [True, False], [True, True]]))
     P["hs_fail_first"] = draw(st.sampled_from([[False, False], [False, False], [False, False], [True, False], [False, True]]))
+    P["get_in_close_cb"] = draw(st.booleans())
     if draw(st.integers(0, 2)) == 0:
         P["closes"] = [[draw(st.integers(0, 1)), draw(st.sampled_from([None, "halfopen", "halfopen", "code", "key", "verifier", "versions"]))]]
         if P["closes"][0][1] == "halfopen":
